@@ -25,6 +25,7 @@ type Contract struct {
 	TreeObserver bool   // reads tree structure: result is stable until the next tree mutation on the path
 	Pre          string // precondition-bearing callee (deny-list, C09)
 	OkNonNil     []int  // result indexes that are non-nil whenever the callee's error result is nil
+	Fresh        bool   // results are newly created objects: writing them does not write the arguments
 	ConcSafeRecv bool   // documented safe for concurrent use on a shared receiver, and does not change what the receiver denotes
 	Note         string
 }
@@ -38,35 +39,35 @@ const (
 
 var contracts = map[string]*Contract{
 	// --- goxmldsig
-	"(*" + pDsig + ".ValidationContext).Validate":                  {Note: "err==nil => result is a fresh tree re-parsed from the canonical bytes covered by a verified signature under ctx.CertificateStore at ctx.Clock; ErrMissingSignature iff no signature references el; el not mutated", OkNonNil: []int{0}},
-	pDsig + ".NewDefaultValidationContext":                         {NonNil: []int{0}, Note: "context over exactly the given store; Clock nil => wall clock"},
+	"(*" + pDsig + ".ValidationContext).Validate":                  {Fresh: true, Note: "err==nil => result is a fresh tree re-parsed from the canonical bytes covered by a verified signature under ctx.CertificateStore at ctx.Clock; ErrMissingSignature iff no signature references el; el not mutated", OkNonNil: []int{0}},
+	pDsig + ".NewDefaultValidationContext":                         {Fresh: true, NonNil: []int{0}, Note: "context over exactly the given store; Clock nil => wall clock"},
 	"(*" + pDsig + ".Clock).Now":                                   {NilSafeRecv: true, Note: "nil-safe; returns the wrapped clock's instant"},
-	pDsig + ".NewDefaultSigningContext":                            {NonNil: []int{0}, Note: "signing context over the given key store"},
-	pDsig + ".NewSigningContext":                                   {Note: "errors only for a nil signer", OkNonNil: []int{0}},
+	pDsig + ".NewDefaultSigningContext":                            {Fresh: true, NonNil: []int{0}, Note: "signing context over the given key store"},
+	pDsig + ".NewSigningContext":                                   {Fresh: true, Note: "errors only for a nil signer", OkNonNil: []int{0}},
 	"(*" + pDsig + ".SigningContext).SetSignatureMethod":           {Writes: []int{0}, Note: "sets the hash for a known algorithm id, error otherwise"},
-	"(*" + pDsig + ".SigningContext).ConstructSignature":           {Note: "builds a ds:Signature over el without mutating it", OkNonNil: []int{0}},
+	"(*" + pDsig + ".SigningContext).ConstructSignature":           {Fresh: true, Note: "builds a ds:Signature over el without mutating it", OkNonNil: []int{0}},
 	"(*" + pDsig + ".SigningContext).SignString":                   {Note: "signs the exact octets given"},
 	"(*" + pDsig + ".SigningContext).GetSignatureMethodIdentifier": {Note: "URI of the configured algorithm"},
 	"(" + pDsig + ".X509KeyStore).GetKeyPair":                      {Note: "user-supplied key store; may fail", MayNil: []int{0, 1}},
 	// --- etree / etreeutils
 	pEU + ".NSFindIterate":                     {Iterate: true, IterRoot: 0, IterHandler: 3, Note: "calls h for every element (root included, all depths) with that namespace+tag; returns h's first error"},
-	pEU + ".NSDetatch":                         {Note: "deep copy with namespace declarations, input unchanged", OkNonNil: []int{0}},
+	pEU + ".NSDetatch":                         {Fresh: true, Note: "deep copy with namespace declarations, input unchanged", OkNonNil: []int{0}},
 	"(*" + pEtree + ".Element).Parent":         {TreeObserver: true, MayNil: []int{0}, Note: "may return nil; stable until the tree is mutated"},
 	"(*" + pEtree + ".Document).Root":          {TreeObserver: true, MayNil: []int{0}, Note: "may return nil; stable until the tree is mutated"},
 	"(*" + pEtree + ".Element).RemoveChild":    {TreeMutator: true, MayNil: []int{0}, Note: "returns nil iff t.Parent() != e"},
 	"(*" + pEtree + ".Element).AddChild":       {TreeMutator: true, Note: "appends t (re-parenting it)"},
-	"(*" + pEtree + ".Element).Copy":           {NonNil: []int{0}, Note: "deep copy, input unchanged"},
+	"(*" + pEtree + ".Element).Copy":           {Fresh: true, NonNil: []int{0}, Note: "deep copy, input unchanged"},
 	"(*" + pEtree + ".Element).CreateAttr":     {TreeMutator: true, NonNil: []int{0}, Note: "attribute value escaped on serialisation; key emitted verbatim"},
 	"(*" + pEtree + ".Element).CreateElement":  {TreeMutator: true, NonNil: []int{0}, Note: "tag emitted verbatim"},
 	"(*" + pEtree + ".Element).SetText":        {TreeMutator: true, Note: "text escaped on serialisation"},
-	pEtree + ".NewDocument":                    {NonNil: []int{0}, Note: "fresh empty document"},
+	pEtree + ".NewDocument":                    {Fresh: true, NonNil: []int{0}, Note: "fresh empty document"},
 	"(*" + pEtree + ".Document).SetRoot":       {TreeMutator: true, Note: "replaces the root"},
 	"(*" + pEtree + ".Document).ReadFromBytes": {TreeMutator: true, Note: "total: error or success"},
-	"(*" + pEtree + ".Document).WriteToBytes":  {Note: "serialises"},
-	"(*" + pEtree + ".Document).WriteToString": {Note: "serialises"},
+	"(*" + pEtree + ".Document).WriteToBytes":  {Fresh: true, Note: "serialises"},
+	"(*" + pEtree + ".Document).WriteToString": {Fresh: true, Note: "serialises"},
 	pRT + ".Validate":                          {Note: "total: error or success, no panic"},
 	// --- std: time
-	"time.Parse":          {Det: true, Note: "RFC3339 accepts offsets and fractional seconds, errors otherwise"},
+	"time.Parse":          {Fresh: true, Det: true, Note: "RFC3339 accepts offsets and fractional seconds, errors otherwise"},
 	"(time.Time).Before":  {Det: true, Note: "strict instant comparison, zone-independent"},
 	"(time.Time).After":   {Det: true, Note: "strict instant comparison, zone-independent"},
 	"(time.Time).Compare": {Det: true, Note: "-1 / 0 / +1 by instant, zone-independent"},
@@ -75,13 +76,13 @@ var contracts = map[string]*Contract{
 	"(time.Time).Add":     {Det: true},
 	"(time.Time).Format":  {Det: true},
 	// --- std: fmt / errors / strings / bytes
-	"fmt.Errorf":                     {NonNil: []int{0}, Note: "non-nil error"},
-	"errors.New":                     {NonNil: []int{0}, Note: "non-nil error"},
-	"fmt.Sprintf":                    {Det: true},
+	"fmt.Errorf":                     {Fresh: true, NonNil: []int{0}, Note: "non-nil error"},
+	"errors.New":                     {Fresh: true, NonNil: []int{0}, Note: "non-nil error"},
+	"fmt.Sprintf":                    {Fresh: true, Det: true},
 	"strings.ToLower":                {Det: true},
 	"bytes.Equal":                    {Det: true},
 	"bytes.TrimRight":                {Det: true, Note: "result is a prefix of the argument: 0 <= len(result) <= len(arg)"},
-	"bytes.NewReader":                {NonNil: []int{0}},
+	"bytes.NewReader":                {Fresh: true, NonNil: []int{0}},
 	"(*bytes.Buffer).Bytes":          {},
 	"(*bytes.Buffer).Len":            {},
 	"(*bytes.Buffer).String":         {},
@@ -98,39 +99,39 @@ var contracts = map[string]*Contract{
 	"fmt.Fprintf":                    {Writes: []int{0}},
 	"io.WriteString":                 {Writes: []int{0}, Note: "w.Write([]byte(s)) unless w has WriteString"},
 	// --- std: encoding
-	"(*encoding/base64.Encoding).DecodeString":   {Det: true},
-	"(*encoding/base64.Encoding).EncodeToString": {Det: true},
+	"(*encoding/base64.Encoding).DecodeString":   {Fresh: true, Det: true},
+	"(*encoding/base64.Encoding).EncodeToString": {Fresh: true, Det: true},
 	"encoding/hex.EncodeToString":                {Det: true},
 	"encoding/xml.Unmarshal":                     {Writes: []int{1}, Note: "error unless the root element has the tagged XMLName; absent optional elements leave pointer fields nil; xml:\"-\" fields never written"},
 	// --- std: io / compress
-	"io.LimitReader":                 {NonNil: []int{0}, Note: "at most n bytes are read from r"},
-	"io.ReadAll":                     {Note: "reads to EOF or error"},
-	"compress/flate.NewReader":       {NonNil: []int{0}},
-	"compress/flate.NewWriter":       {OkNonNil: []int{0}},
+	"io.LimitReader":                 {Fresh: true, NonNil: []int{0}, Note: "at most n bytes are read from r"},
+	"io.ReadAll":                     {Fresh: true, Note: "reads to EOF or error"},
+	"compress/flate.NewReader":       {Fresh: true, NonNil: []int{0}},
+	"compress/flate.NewWriter":       {Fresh: true, OkNonNil: []int{0}},
 	"(*compress/flate.Writer).Write": {Writes: []int{0}},
 	"(*compress/flate.Writer).Close": {Writes: []int{0}},
 	// --- std: crypto
-	"crypto/x509.ParseCertificate":          {Det: true, OkNonNil: []int{0}},
-	"crypto/cipher.NewGCM":                  {OkNonNil: []int{0}},
-	"crypto/cipher.NewCBCDecrypter":         {NonNil: []int{0}, Pre: "len(iv) == b.BlockSize()"},
+	"crypto/x509.ParseCertificate":          {Fresh: true, Det: true, OkNonNil: []int{0}},
+	"crypto/cipher.NewGCM":                  {Fresh: true, OkNonNil: []int{0}},
+	"crypto/cipher.NewCBCDecrypter":         {Fresh: true, NonNil: []int{0}, Pre: "len(iv) == b.BlockSize()"},
 	"(crypto/cipher.BlockMode).CryptBlocks": {Writes: []int{1}, Pre: "len(src) % BlockSize == 0 && len(dst) >= len(src)"},
-	"(crypto/cipher.AEAD).Open":             {Pre: "len(nonce) == NonceSize()"},
+	"(crypto/cipher.AEAD).Open":             {Fresh: true, Pre: "len(nonce) == NonceSize()"},
 	"(crypto/cipher.AEAD).NonceSize":        {Det: true, Note: "stable getter"},
 	"(crypto/cipher.AEAD).Overhead":         {Det: true, Note: "stable getter"},
 	"(crypto/cipher.Block).BlockSize":       {Det: true, Note: "stable getter, > 0"},
 	"(hash.Hash).Size":                      {Det: true},
 	"(hash.Hash).Write":                     {Writes: []int{0}},
-	"(hash.Hash).Sum":                       {},
-	"crypto/sha1.New":                       {NonNil: []int{0}},
-	"crypto/sha256.New":                     {NonNil: []int{0}},
-	"crypto/sha512.New":                     {NonNil: []int{0}},
-	"crypto/rsa.DecryptOAEP":                {Writes: []int{0}},
-	"crypto/rsa.DecryptPKCS1v15":            {},
-	"crypto/aes.NewCipher":                  {OkNonNil: []int{0}},
+	"(hash.Hash).Sum":                       {Fresh: true},
+	"crypto/sha1.New":                       {Fresh: true, NonNil: []int{0}},
+	"crypto/sha256.New":                     {Fresh: true, NonNil: []int{0}},
+	"crypto/sha512.New":                     {Fresh: true, NonNil: []int{0}},
+	"crypto/rsa.DecryptOAEP":                {Fresh: true, Writes: []int{0}},
+	"crypto/rsa.DecryptPKCS1v15":            {Fresh: true},
+	"crypto/aes.NewCipher":                  {Fresh: true, OkNonNil: []int{0}},
 	"crypto/rand.Read":                      {Writes: []int{0}, Note: "fills the whole slice or returns an error"},
 	// --- std: url / http / template
-	"net/url.Parse":                     {OkNonNil: []int{0}},
-	"(*net/url.URL).Query":              {NonNil: []int{0}},
+	"net/url.Parse":                     {Fresh: true, OkNonNil: []int{0}},
+	"(*net/url.URL).Query":              {Fresh: true, NonNil: []int{0}},
 	"(*net/url.URL).String":             {},
 	"(net/url.Values).Add":              {Writes: []int{0}},
 	"(net/url.Values).Get":              {},
@@ -138,7 +139,7 @@ var contracts = map[string]*Contract{
 	"net/url.QueryEscape":               {Det: true},
 	"net/http.Redirect":                 {Writes: []int{0}},
 	"encoding/hex.Encode":               {Writes: []int{0}},
-	"html/template.New":                 {NonNil: []int{0}},
+	"html/template.New":                 {Fresh: true, NonNil: []int{0}},
 	"(*html/template.Template).Parse":   {Writes: []int{0}, OkNonNil: []int{0}},
 	"html/template.Must":                {NonNil: []int{0}, Pre: "err == nil"},
 	"(*html/template.Template).Execute": {Writes: []int{1}, ConcSafeRecv: true, Note: "html/template: a template may be executed safely in parallel"},
